@@ -120,6 +120,13 @@ def u7(ctx, F, arms, fn, sym, rule="C12.U7"):
         for g in hir.guards_of(c, host["hir"]["body"], hir.Sym(hir.Env(host["hir"], F), F)) or []:
             if g[0] == "if" and g[2] is True and isinstance(g[1], tuple) and g[1][:1] == ("var",):
                 flags.add(g[1][1])
+    # the place that plays a move can be reached at all (a guard that is literally false switches the move list off)
+    if host is not None:
+        hsym = hir.Sym(hir.Env(host["hir"], F), F)
+        dead = [hir.line(c) for c in plays
+                if (lambda t_: t_ == ("lit", False) or hir.all_leaves_false(t_))(hir.fold(hir.guards_term(hir.guards_of(c, host["hir"]["body"], hsym) or []), {}))]
+        ctx.check(rule, "the-play-site-can-be-reached", bool(plays) and not dead, fn=host["path"], file=host["file"], line=dead[0] if dead else None,
+                  what="the statement that plays the moves of a `position` command stands under a condition that is never true", found=dead)
     if host is None or host["path"] != fn["path"] or len(flags) != 1:
         return          # the list is not played under one boolean local of command_position: nothing this rule can say
     flag = next(iter(flags))
